@@ -61,6 +61,9 @@ var errClasses = []struct{ re, cls string }{
 	{`no such column`, "refused-no-such-column"},
 	{`no such table`, "refused-no-such-table"},
 	{`no such index`, "refused-no-such-index"},
+	{`cannot INSERT into generated column`, "refused-generated"},
+	{`non-constant default`, "refused-add-nonconstant"},
+	{`values for \d+ columns`, "refused-arity"},
 	{`type mismatch on DEFAULT`, "refused-default-type"},
 	{`foreign_key_check' pragma: scanning rows`, "refused-fkcheck-scan"},
 	{`error in (table|index|view|trigger)`, "refused-schema-error"},
